@@ -63,8 +63,41 @@ pub fn gen_c12(seed: u64, thorough: bool) -> Plan {
     Plan { property: "C12".into(), scenario: "nonces".into(), seed, net_seed: g.next(), config, knobs: KnobsPlan { read_style: *g.pick(&[0, 3, 4]), ..KnobsPlan::simple() }, flows, extra }
 }
 
+/// C12, last clause ("a UDP session ends rather than reuse a packet id"): sessions that start a few ids before 2^64
+/// (hook H8). One application, one echoing target, a dozen datagrams: the ids on the wire must keep increasing within
+/// every session (a wrap to 0 is the reuse), and the exchange must go on - in a new session - after the ids ran out.
+pub fn gen_c12_wrap(seed: u64, _thorough: bool) -> Plan {
+    let mut g = Gen::new(seed, 121);
+    let ss22: Vec<&str> = SS_CIPHERS.iter().copied().filter(|c| is_2022(c)).collect();
+    let cipher = ss22[seed as usize % ss22.len()];
+    let n_users = if supports_eih(cipher) && (seed / 4) % 2 == 1 { 2 } else { 0 };
+    let config = scen_udp::udp_config(&mut g, Proto::Shadowsocks, cipher, Transport::Tcp, n_users);
+    let mut up = scen_udp::gen_udp_plan(&mut g, false, 600);
+    up.apps.truncate(1);
+    up.targets.truncate(1);
+    up.targets[0].replies = 1;
+    up.targets[0].reply_size = 40;
+    up.send_faults = false;
+    up.apps[0] = (0..14).flat_map(|_| [scen_udp::UdpOp::Send { t: 0, size: g.range(9, 200) as usize }, scen_udp::UdpOp::Pause(20)]).collect();
+    let side = (seed / 8) % 3;
+    let near = |g: &mut Gen| u64::MAX - g.range(1, 8);
+    let client = if side != 1 { Some(near(&mut g)) } else { None };
+    let server = if side != 0 { Some(near(&mut g)) } else { None };
+    Plan {
+        property: "C12".into(),
+        scenario: "nonces".into(),
+        seed,
+        net_seed: g.next(),
+        config,
+        knobs: KnobsPlan::simple(),
+        flows: vec![],
+        extra: serde_json::json!({ "udp": up, "initial_packet_id": { "client": client, "server": server } }),
+    }
+}
+
 #[derive(Default, Clone)]
 struct Collected {
+    wrap_runs: u64,
     used: Vec<KeyNonce>,
     /// per-session random values that must be pairwise distinct: (kind, bytes)
     fresh: Vec<(&'static str, Vec<u8>)>,
@@ -170,10 +203,25 @@ pub fn execute_c12(plan: &Plan) -> Outcome {
         if is_udp {
             world::with(|w| w.udp_capture = Some(Vec::new()));
             let up: scen_udp::UdpPlan = serde_json::from_value(plan.extra["udp"].clone()).unwrap();
+            let wrap = plan.extra.get("initial_packet_id").filter(|v| v.is_object());
+            if let Some(w0) = wrap {
+                let (c0, s0) = (w0["client"].as_u64(), w0["server"].as_u64());
+                world::with(|w| w.initial_packet_id = (c0, s0));
+            }
             let run = scen_udp::run_udp_system(plan, &up).await;
             if let Some(e) = run.startup_err {
                 col.errors.push(e);
                 return col;
+            }
+            if wrap.is_some() {
+                // the ids ran out in mid-exchange: a datagram or two may fall at the seam between two sessions, the rest goes on
+                let sent = run.obs.sent[0].len();
+                let at_target = run.obs.target_recv[0].len();
+                let replies = run.obs.app_recv[0].len();
+                col.wrap_runs = 1;
+                if sent >= 10 && (at_target + 3 < sent || replies + 4 < sent) {
+                    col.errors.push(format!("exhausted: of {sent} datagrams sent across the end of the packet-id space {at_target} reached the target and {replies} replies came back"));
+                }
             }
             let cap = world::with(|w| w.udp_capture.take().unwrap_or_default());
             let now = unix_now();
@@ -234,12 +282,14 @@ pub fn execute_c12(plan: &Plan) -> Outcome {
                 col.fresh.push((if *dir { "client session id" } else { "server session id" }, sid.to_be_bytes().to_vec()));
             }
         } else {
+            // the handshakes of this plan are all made within the first second (no pauses in the scripts); the run itself
+            // ends tens of simulated seconds later (teardown grace periods), which is not the handshakes' problem
+            let now = unix_now() + 1;
             let (run, pobs) = run_tcp_system_via(plan, true, Some((DirScript::default(), DirScript::default()))).await;
             if let Some(e) = run.startup_err {
                 col.errors.push(e);
                 return col;
             }
-            let now = unix_now();
             for (c2s, s2c) in pobs.c2s.iter().zip(pobs.s2c.iter()) {
                 parse_connection(&c, now, c2s, s2c, &mut col);
             }
@@ -251,7 +301,7 @@ pub fn execute_c12(plan: &Plan) -> Outcome {
     let mut v = Vec::new();
     let kind = if is_udp { "udp" } else { "tcp" };
     for e in col.errors.iter().take(3) {
-        let oracle = if e.contains("packet id") { "packet-id-not-increasing" } else { "reference-cannot-parse" };
+        let oracle = if e.contains("packet id") { "packet-id-not-increasing" } else if e.starts_with("exhausted") { "relay-dead-after-packet-id-exhaustion" } else { "reference-cannot-parse" };
         v.push(Violation::new("C12", format!("C12/{oracle}/{cell}/{kind}"), e.clone()));
     }
     let mut seen: BTreeSet<&KeyNonce> = BTreeSet::new();
@@ -275,6 +325,7 @@ pub fn execute_c12(plan: &Plan) -> Outcome {
     probes.insert("sessions_parsed".to_owned(), col.sessions as u64);
     probes.insert("fresh_values_compared".to_owned(), col.fresh.len() as u64);
     probes.insert(format!("runs_{kind}"), 1);
+    probes.insert("runs_across_packet_id_exhaustion".to_owned(), col.wrap_runs);
     Outcome {
         violations: v,
         ev_hash: out.world.ev_hash,
